@@ -20,15 +20,16 @@ import (
 )
 
 // ---------------------------------------------------------------------
-// Genuine defect found by this check and reported: a FROM-subquery marks the
-// FileInfo it shares with the cached table as an inline table without a path
-// (lib/query/load_view.go, parser.Subquery branch of loadView), after which DML on
-// a file fails with "file  does not exist", INSERT into a temporary table fails
-// with "inline table cannot be updated" and UPDATE/DELETE on a temporary table
-// are silently lost. While the flag is true FROM-subqueries read the sacrificial
-// temporary table ts, which no probe and no DML looks at; set it to false to
-// produce the shape again (signature from_subquery_poisons_fileinfo).
-const avoidKnownFromSubqueryOverFile = true
+// Genuine defect found by this check (signature from_subquery_poisons_fileinfo,
+// fixed in /repo by "a subquery in FROM no longer rewrites the cached table's
+// file information"): a FROM-subquery marked the FileInfo it shared with the
+// cached table as an inline table without a path (lib/query/load_view.go,
+// parser.Subquery branch of loadView), after which DML on the file failed with
+// "file  does not exist", INSERT into a temporary table failed with "inline
+// table cannot be updated" and UPDATE/DELETE on a temporary table were silently
+// lost. Setting the flag to true keeps FROM-subqueries on the sacrificial
+// temporary table ts, which no probe and no DML looks at.
+const avoidKnownFromSubqueryOverFile = false
 
 // ---------------------------------------------------------------------
 // signature table. "ret:required|optional"
